@@ -22,6 +22,9 @@ case = {
   'paused0': bool                        the transport is paused before the request arrives (the reply path of
                                          _abort / __aexit__ has to wait for write_ready); writing is resumed
                                          once the handler coroutine has ended or when it is never called
+  'big':     bool                        reply messages are 100000 bytes, the client advertises 1 MiB per stream
+                                         but keeps the default 65535-byte connection window and returns credit as
+                                         it consumes (connection-level WINDOW_UPDATE): the reply needs that credit
   'hooks_await': bool                    listeners on RecvRequest / RecvMessage / SendInitialMetadata /
                                          SendMessage / SendTrailingMetadata really suspend (await asyncio.sleep(0))
 }
@@ -104,9 +107,15 @@ def exc_class(e):
     return 'other:' + type(e).__name__
 
 
+BIG_REPLY = bytes(range(256)) * 390 + b'x' * 160          # 100000 bytes
+
+
 def canon_events(evs, sid):
-    """frames of the response as the client peer saw them, canonicalised"""
+    """frames of the response as the client peer saw them, canonicalised; DATA frames are re-assembled into
+    length-prefixed messages (a big message travels in several frames)"""
     out = []
+    buf = bytearray()
+    big_hex = None
     for e in evs:
         if getattr(e, 'stream_id', None) != sid:
             continue
@@ -115,13 +124,28 @@ def canon_events(evs, sid):
         elif isinstance(e, TrailersReceived):
             out.append(['T', [[k, v] for k, v in e.headers], e.stream_ended is not None])
         elif isinstance(e, DataReceived):
-            out.append(['D', e.data.hex(), e.stream_ended is not None])
+            buf += e.data
+            while len(buf) >= 5 and len(buf) >= 5 + int.from_bytes(buf[1:5], 'big'):
+                n = 5 + int.from_bytes(buf[1:5], 'big')
+                msg = bytes(buf[:n])
+                del buf[:n]
+                if n > 1000:
+                    if big_hex is None:
+                        big_hex = P.grpc_frame(BIG_REPLY)
+                    out.append(['D', 'BIG' if msg == big_hex else 'BAD-BIG:%d' % n, False])
+                else:
+                    out.append(['D', msg.hex(), e.stream_ended is not None and not buf])
+            if e.stream_ended is not None and buf:
+                out.append(['D', 'partial:' + bytes(buf[:16]).hex(), True])
+                del buf[:]
         elif isinstance(e, StreamReset):
             out.append(['R', int(e.error_code)])
         elif isinstance(e, (StreamEnded, WindowUpdated)):
             pass                          # END_STREAM is the flag on H/T/D; credit is not part of the response
         else:
             out.append(['?', type(e).__name__])
+    if buf:
+        out.append(['D', 'partial:%d-bytes' % len(buf), False])      # a message that never arrived completely
     return out
 
 
@@ -142,6 +166,7 @@ def _run(case, loop):
     ext = case.get('ext', 'none')
     ext_at = case.get('ext_at')
     body = case['body']
+    reply = BIG_REPLY if case.get('big') else REPLY
     st = {'results': [], 'end': None, 'sleeps': 0, 'fired': None, 'started': False, 'where': None,
           'phase': 'ops', 'cause': None, 'hook': None, 'finished': False}
     box = {}
@@ -199,7 +224,7 @@ def _run(case, loop):
                         await stream.send_initial_metadata(metadata={'Bad Key': 'x'} if mode == 'a' else None)
                         res.append('ok')
                     elif k == 'M':
-                        await stream.send_message(12345 if mode == 'a' else REPLY)
+                        await stream.send_message(12345 if mode == 'a' else reply)
                         res.append('ok')
                     elif k == 'T':
                         await stream.send_trailing_metadata(status=_status(op[1]), status_message=op[2],
@@ -247,6 +272,24 @@ def _run(case, loop):
 
     se = wire.ServerEnd(loop, [Service('v.S', {'M': (handler_outer, case['card'])})])
     box['se'] = se
+    if case.get('big'):
+        # the client: 1 MiB per stream, the default 65535 bytes per connection, credit returned as it is consumed
+        from h2.settings import SettingCodes
+        se.peer.settings({SettingCodes.INITIAL_WINDOW_SIZE: 1 << 20})
+        consume = se.transport.on_write
+        pending = {'flush': False}
+
+        def flush_credit():
+            pending['flush'] = False
+            if not se.transport.lost:
+                se.peer.flush()
+
+        def on_write(data):
+            consume(data)
+            if not pending['flush']:
+                pending['flush'] = True
+                loop.call_soon(flush_credit)
+        se.transport.on_write = on_write
     from grpclib.events import (listen, SendInitialMetadata, SendMessage, SendTrailingMetadata, RecvRequest,
                                 RecvMessage)
     hooks_await = bool(case.get('hooks_await'))
@@ -324,6 +367,8 @@ def _run(case, loop):
         'fired': st['fired'] or 'none',
         'cause': st['cause'],
         'hang': hang,
+        'where': st['where'],
+        'paused': bool(se.transport.paused),
         'violations': [type(v).__name__ + ':' + str(v)[:80] for v in peer.violations],
         'task_exc': None,
     }
